@@ -38,6 +38,8 @@ class Fn:
         self.zvars = set()          # locals that hold integers manipulated with |=
         for n in ast.walk(node):
             if isinstance(n, ast.AugAssign):
+                if isinstance(self, FnZQ) and isinstance(n.op, (ast.Sub, ast.Add)) and isinstance(n.target, ast.Name):
+                    continue
                 if not (isinstance(n.op, ast.BitOr) and isinstance(n.target, ast.Name)):
                     raise Unsupported("augmented assignment other than |= at line %d" % n.lineno)
                 self.zvars.add(n.target.id)
@@ -197,8 +199,78 @@ class FnZQ(Fn):
     injected (iz).  int(<int> / <int literal>) is Python's truncating quotient: Z.quot (exact in floats while |value| < 2^53)."""
     def __init__(self, node, known):
         Fn.__init__(self, node, known)
-        self.zenv = set(x.arg for x in node.args.args)          # integer-valued names
+        a = node.args
+        self.optional = set()                                    # arguments that are an integer or the string "clear" (-> option Z)
+        for arg, d in zip(a.args[len(a.args) - len(a.defaults):], a.defaults):
+            if isinstance(d, ast.Constant) and d.value == "clear":
+                self.optional.add(arg.arg)
+        self.zenv = set(x.arg for x in a.args) - self.optional    # integer-valued names
         self.qenv = set()
+
+    def definition(self):
+        n = self.node
+        names = [x.arg for x in n.args.args]
+        for d in n.args.defaults:
+            if not (isinstance(d, ast.Constant) and d.value == "clear"):
+                raise Unsupported("default value in %s" % n.name)
+        return "Definition t_%s %s :=\n  %s." % (n.name, " ".join(names), self.block(n.body))
+
+    def is_clear_test(self, t):
+        return isinstance(t, ast.Compare) and len(t.ops) == 1 and isinstance(t.ops[0], ast.Eq) and isinstance(t.left, ast.Name) \
+            and t.left.id in self.optional and isinstance(t.comparators[0], ast.Constant) and t.comparators[0].value == "clear"
+
+    def upd(self, stmts, var):
+        """the value of `var` after the non-returning statements `stmts` (which may bind other locals on the way)"""
+        if not stmts:
+            return var
+        s, rest = stmts[0], stmts[1:]
+        if isinstance(s, ast.Assign) and len(s.targets) == 1 and isinstance(s.targets[0], ast.Name):
+            t = s.targets[0].id
+            return "let %s := %s in %s" % (t, self.value(t, s.value), self.upd(rest, var))
+        if isinstance(s, ast.If):
+            inner = set(n.targets[0].id for b in (s.body, s.orelse) for n in ast.walk(ast.Module(body=b, type_ignores=[]))
+                        if isinstance(n, ast.Assign) and isinstance(n.targets[0], ast.Name)) - {var}
+            used_after = set(n.id for r in rest for n in ast.walk(r) if isinstance(n, ast.Name))
+            if inner & used_after:
+                raise Unsupported("a local bound inside a branch is used after it, line %d" % s.lineno)
+            c = self.expr(s.test)
+            saved = (set(self.zenv), set(self.qenv))
+            b1 = self.upd(s.body, var); self.zenv, self.qenv = set(saved[0]), set(saved[1])
+            b2 = self.upd(s.orelse, var); self.zenv, self.qenv = saved
+            return "let %s := (if %s then %s else %s) in %s" % (var, c, b1, b2, self.upd(rest, var))
+        raise Unsupported("%s inside a conditional update at line %d" % (type(s).__name__, s.lineno))
+
+    def block(self, stmts):
+        if stmts:
+            s, rest = stmts[0], stmts[1:]
+            # mpmath.mp.dps = 30 : the working precision; the translation is exact arithmetic, the statement has no counterpart
+            if isinstance(s, ast.Assign) and len(s.targets) == 1 and isinstance(s.targets[0], ast.Attribute) \
+                    and ast.unparse(s.targets[0]) in ("mpmath.mp.dps", "mpmath.mp.prec"):
+                return self.block(rest)
+            # if accum == "clear": <bind accum> else: accum = int(accum)
+            if isinstance(s, ast.If) and self.is_clear_test(s.test):
+                var = s.test.left.id
+                ok = len(s.orelse) == 1 and isinstance(s.orelse[0], ast.Assign) and ast.unparse(s.orelse[0]) == "%s = int(%s)" % (var, var)
+                if not ok:
+                    raise Unsupported("else branch of the 'clear' test at line %d" % s.lineno)
+                saved = (set(self.zenv), set(self.qenv))
+                body = self.upd(s.body, var)
+                self.zenv, self.qenv = saved
+                self.zenv.add(var)
+                return "let %s := match %s with None => %s | Some %s => %s end in\n  %s" % (var, var, body, var, var, self.block(rest))
+            # v -= <expr> / v += <expr>
+            if isinstance(s, ast.AugAssign) and isinstance(s.op, (ast.Sub, ast.Add)) and isinstance(s.target, ast.Name):
+                e = ast.BinOp(left=ast.Name(id=s.target.id, ctx=ast.Load()), op=s.op, right=s.value)
+                ast.copy_location(e, s); ast.fix_missing_locations(e)
+                return "let %s := %s in\n  %s" % (s.target.id, self.value(s.target.id, e), self.block(rest))
+            # if <cond>: v = <expr>   (no else): conditional update keeping the kind (Z / Q) of v
+            if isinstance(s, ast.If) and not s.orelse and not self.returns(s.body) and len(s.body) == 1 and isinstance(s.body[0], ast.Assign) \
+                    and isinstance(s.body[0].targets[0], ast.Name):
+                v = s.body[0].targets[0].id
+                c = self.expr(s.test)
+                if v in self.qenv:
+                    return "let %s := if %s then (%s)%%Q else %s in\n  %s" % (v, c, self.eq(s.body[0].value), v, self.block(rest))
+        return Fn.block(self, stmts)
 
     def is_z(self, e):
         if isinstance(e, ast.Name): return e.id in self.zenv
@@ -207,7 +279,7 @@ class FnZQ(Fn):
         if isinstance(e, ast.BinOp) and isinstance(e.op, (ast.Add, ast.Sub, ast.Mult)): return self.is_z(e.left) and self.is_z(e.right)
         if isinstance(e, ast.Call):
             f = self.fname(e)
-            if f in ("int", "round", "math.ceil", "math.floor"): return True
+            if f in ("int", "round", "math.ceil", "math.floor", "mpmath.floor", "mpmath.ceil"): return True
             if f in ("abs", "max", "min"): return all(self.is_z(a) for a in e.args)
             if f in self.known: return True
         return False
@@ -234,8 +306,8 @@ class FnZQ(Fn):
                     return "(Z.quot %s %d)" % (self.ez(x.left), x.right.value)
                 return "(Qtrunc (%s)%%Q)" % self.eq(x)
             if f == "round" and len(a) == 1: return self.ez(a[0]) if self.is_z(a[0]) else "(Qround_he (%s)%%Q)" % self.eq(a[0])
-            if f == "math.ceil" and len(a) == 1: return self.ez(a[0]) if self.is_z(a[0]) else "(Qceiling (%s)%%Q)" % self.eq(a[0])
-            if f == "math.floor" and len(a) == 1: return self.ez(a[0]) if self.is_z(a[0]) else "(Qfloor (%s)%%Q)" % self.eq(a[0])
+            if f in ("math.ceil", "mpmath.ceil") and len(a) == 1: return self.ez(a[0]) if self.is_z(a[0]) else "(Qceiling (%s)%%Q)" % self.eq(a[0])
+            if f in ("math.floor", "mpmath.floor") and len(a) == 1: return self.ez(a[0]) if self.is_z(a[0]) else "(Qfloor (%s)%%Q)" % self.eq(a[0])
             if f == "abs" and len(a) == 1 and self.is_z(a[0]): return "(Z.abs %s)" % self.ez(a[0])
             if f in ("max", "min") and len(a) >= 2 and all(self.is_z(x) for x in a):
                 out = self.ez(a[0])
@@ -259,6 +331,7 @@ class FnZQ(Fn):
             # left-nested chains print without the parentheses the printer of the hand model omits
             return "%s %s %s" % (l if self.loose(e.left, e.op, True) else "(%s)" % l, ops[type(e.op)], r if self.loose(e.right, e.op, False) else "(%s)" % r)
         if isinstance(e, ast.Call) and self.fname(e) == "abs" and len(e.args) == 1: return "Qabs (%s)" % self.eq(e.args[0])
+        if isinstance(e, ast.Call) and self.fname(e) == "mpmath.mpf" and len(e.args) == 1: return self.eq(e.args[0])     # exact layer: mpf(x) is x
         raise Unsupported("rational expression at line %d" % e.lineno)
 
     @staticmethod
@@ -296,14 +369,18 @@ class FnZQ(Fn):
             return "(negb %s)" % self.expr(e.operand)
         if isinstance(e, ast.Constant) and isinstance(e.value, bool):
             return "true" if e.value else "false"
+        if isinstance(e, ast.Tuple):
+            return "(" + ", ".join(self.expr(x) for x in e.elts) + ")"
         return self.ez(e) if self.is_z(e) else "(%s)%%Q" % self.eq(e)
 
     def value(self, target, e):
         if self.is_z(e):
+            term = self.ez(e)                      # translated in the environment before the binding
             self.zenv.add(target); self.qenv.discard(target)
-            return self.ez(e)
+            return term
+        term = "(%s)%%Q" % self.eq(e)
         self.qenv.add(target); self.zenv.discard(target)
-        return "(%s)%%Q" % self.eq(e)
+        return term
 
 
 def translate(path, names, mode="q"):
